@@ -98,6 +98,34 @@ def tlc_mc(spec, cfg, workdir, expect="pass", workers=16, timeout=900, heap="6g"
                 wall_s=round(time.time() - t0, 2), out=out)
 
 
+def apalache_inductive(spec, cinit, inv, workdir, expect="pass", timeout=600):
+    """Apalache: the invariant holds initially (Init, length 0) and is preserved by every step from ANY state that
+    satisfies it (IndInit, length 1) - an inductive invariant, valid for any number of steps."""
+    out_dir = os.path.join(workdir, "apalache_" + cinit)
+    t0 = time.time()
+    results = []
+    for init, length in (("Init", 0), ("IndInit", 1)):
+        cmd = ["apalache-mc", "check", "--cinit=" + cinit, "--init=" + init, "--inv=" + inv, "--length=%d" % length,
+               "--out-dir=" + out_dir, os.path.join(SPEC, spec)]
+        try:
+            p = subprocess.run(cmd, cwd=workdir, capture_output=True, text=True, timeout=timeout)
+        except subprocess.TimeoutExpired:
+            raise Infra("Apalache timeout on %s (%s)" % (spec, cinit))
+        out = p.stdout + p.stderr
+        ok = "EXITCODE: OK" in out and "Checker reports no error" in out
+        bad = "Checker has found an error" in out or "EXITCODE: ERROR (12)" in out
+        if not ok and not bad:
+            raise Infra("Apalache did not give a verdict on %s (%s, %s):\n%s" % (spec, cinit, init, out[-2000:]))
+        results.append(ok)
+    shutil.rmtree(out_dir, ignore_errors=True)
+    holds = all(results)
+    if expect == "pass" and not holds:
+        raise Infra("%s: %s is not an inductive invariant under %s (the specification is wrong, not the code)" % (spec, inv, cinit))
+    if expect == "fail" and holds:
+        raise Infra("%s: negative configuration %s unexpectedly inductive (the model does not discriminate)" % (spec, cinit))
+    return dict(spec=spec, cinit=cinit, inv=inv, expect=expect, inductive=holds, wall_s=round(time.time() - t0, 2))
+
+
 _BEH = re.compile(r'<<"BEH", ("(?:[^"\\]|\\.)*")>>')
 
 
@@ -331,6 +359,7 @@ class Stage:
         # behaviours: {tier: [(Gen spec, cfg, num walks, depth)]} - TLC -simulate output replayed on the real code
         self.behaviours = behaviours or {}
         self.fuzz = {}      # {tier: seconds of native Go fuzzing whose corpus is replayed} (C03)
+        self.apalache = {}  # {tier: [(spec, cinit, invariant, 'pass'|'fail')]} inductive invariants checked by Apalache
         self.nontrivial = nontrivial
         self.race = race
         self.driver_env = driver_env
@@ -369,6 +398,11 @@ def run_check(prop, stages, tier, seed, assumptions, rule, replay=None):
                     cov["transitions"] += r["generated"]
                 else:
                     cov["negative_configs_ok"] += 1
+            for spec, cinit, inv, expect in getattr(st, "apalache", {}).get(tier, []):
+                r = apalache_inductive(spec, cinit, inv, work, expect=expect)
+                log("[apalache] %s --cinit=%s inductive invariant %s: %s (expect=%s) %.1fs" %
+                    (spec, cinit, inv, r["inductive"], expect, r["wall_s"]))
+                cov.setdefault("inductive_invariants", []).append(r)
         # ---- 2. real executions, recorded
         jobs = []
         for si, st in enumerate(stages):
